@@ -22,4 +22,13 @@ for cp in range(0x80, 0x110000):
                 pass
             except Exception as e:  # noqa
                 bad.append({"what": f"URL({s!r}) raised {type(e).__name__}", "class": "exception-kind:" + type(e).__name__, "input": repr(s)})
+        # "any authority": the same through build(authority=…)
+        for a in ("a%sb" % ch, "u@x%s.com:80" % ch):
+            try:
+                u = URL.build(scheme="http", authority=a)
+                bad.append({"what": f"URL.build(authority={a!r}) accepted although NFKC(U+{cp:04X}) = {nf!r} contains a delimiter (str {str(u)!r})", "class": "nfkc-screen", "input": repr(a)})
+            except ValueError:
+                pass
+            except Exception as e:  # noqa
+                bad.append({"what": f"URL.build(authority={a!r}) raised {type(e).__name__}", "class": "exception-kind:" + type(e).__name__, "input": repr(a)})
 print(json.dumps({"failures": bad[:10], "code_points_with_delimiter_in_nfkc": len(hits), "checked": 0x110000 - 0x80 - 2048, "sample": [hex(x) for x in hits[:8]]}))
